@@ -89,6 +89,26 @@ def build_engine(engine, cfg):
     return os.path.join(tdir, "release", e["bin"])
 
 
+def build_shim(name):
+    """Small C helpers (LD_PRELOAD interposers) built into /verif/target/shims."""
+    d = os.path.join(TARGET, "shims")
+    os.makedirs(d, exist_ok=True)
+    src = os.path.join(VERIF, "shims", name + ".c")
+    so = os.path.join(d, name + ".so")
+    if not os.path.exists(so) or os.path.getmtime(so) < os.path.getmtime(src):
+        rc, out = run_cmd(["gcc", "-shared", "-fPIC", "-O1", "-o", so, src, "-ldl"])
+        if rc != 0:
+            raise Machinery("shim %s does not build:\n%s" % (name, out))
+    return so
+
+
+def step_env(step):
+    env = dict(step.get("env") or {})
+    for shim, var in (step.get("shims") or {}).items():
+        env[var] = build_shim(shim)
+    return env
+
+
 def run_engine(binp, prop, tier, seed, report, extra, timeout, env_extra=None):
     cmd = [binp, "--prop", prop, "--tier", tier, "--seed", str(seed), "--report", report] + extra
     env = base_env()
@@ -228,7 +248,7 @@ def main(argv):
             rpt = os.path.join(OUT, "reports", "%s-%s-%s-%s.json" % (prop, step["engine"], step["cfg"], step.get("tag", "0")))
             os.makedirs(os.path.dirname(rpt), exist_ok=True)
             r = run_engine(binp, step.get("prop", prop), tier, seed, rpt, step.get("extra", []),
-                           step.get("timeout", 3600 if tier == "quick" else 6 * 3600), step.get("env"))
+                           step.get("timeout", 3600 if tier == "quick" else 6 * 3600), step_env(step))
             for v in r.get("violations", []):
                 v["_step"] = step
             reports.append(r)
@@ -248,7 +268,7 @@ def do_replay(prop, plan, path, tier, seed):
     step = rj.get("_step") or plan["runs"](tier)[0]
     binp = build_engine(step["engine"], step["cfg"])
     cmd = [binp, "--prop", step.get("prop", prop), "--tier", tier, "--seed", str(rj.get("seed", seed)), "--replay", path] + step.get("extra", [])
-    env = base_env(); env.update(step.get("env") or {})
+    env = base_env(); env.update(step_env(step))
     rc, out = run_cmd(cmd, cwd=VERIF, env=env, timeout=1800)
     print(out, end="")
     if rc not in (0, 1):
@@ -286,7 +306,7 @@ def decide(prop, plan, tier, seed, merged, wall):
             for _ in range(2):
                 cmd = [binp, "--prop", step.get("prop", prop), "--tier", tier, "--seed", str(rj.get("seed", seed)),
                        "--replay", rpath] + step.get("extra", [])
-                env = base_env(); env.update(step.get("env") or {})
+                env = base_env(); env.update(step_env(step))
                 rc, out = run_cmd(cmd, cwd=VERIF, env=env, timeout=1800)
                 outcomes.append(rc)
             if outcomes != [1, 1]:
